@@ -507,13 +507,13 @@ impl Type {
                         }
                     }) && self_attrs.iter().all(|(k, self_attr_ty)| {
                         match core_attrs.get(k) {
-                            Some(core_attr_ty) => {
-                                // both have the attribute, doesn't matter
-                                // if one or both consider it required or
-                                // optional
-                                self_attr_ty
-                                    .attr_type
-                                    .is_consistent_with(core_attr_ty.schema_type())
+                            Some(_) => {
+                                // both have the attribute: its types were
+                                // already compared by the loop over
+                                // `core_attrs` above (comparing them again
+                                // here makes the check exponential in the
+                                // nesting depth of record types)
+                                true
                             }
                             None => {
                                 // self_attrs has the attribute, core_attrs does not.
